@@ -211,7 +211,29 @@ func C02Scenarios(tier string) []*h.Scenario {
 	// a cool-down that is not a multiple of the scan interval (150 s: scans land 30 s before / after expiry)
 	off := mk("c02.setdesired.150s", false, false)
 	off.Groups[0].Opts.ScaleUpCoolDownPeriod = "150s"
+	// scale-up from zero nodes; the new instances take three scans to register, so scans inside the
+	// window can see the group completely idle (no nodes, no pods) and busy again
+	zero := mk("c02.from-zero", false, false)
+	zero.Groups[0].Opts.MinNodes = 0
+	gz := zero.Groups[0]
+	zero.Init = func(hh *h.Hist) {
+		InitASGs(hh)
+		hh.W.AddPod(podOn(gz, "", 1000))
+	}
+	zero.Script = func(hh *h.Hist, slot int) {
+		if slot < 3 {
+			hh.SkipSettle = true
+		}
+	}
+	zero.Events = func(hh *h.Hist, slot int) []h.Event {
+		return []h.Event{evBurst(gz, 2, 1000), evClearAllPods(gz), evRestart(), evExtraTick(1)}
+	}
+	// fleet mode with a cool-down (30 s) shorter than the fleet ready timeout and than the scan interval
+	short := mk("c02.fleet.30s", true, false)
+	short.Groups[0].Opts.ScaleUpCoolDownPeriod = "30s"
 	return []*h.Scenario{
+		zero,
+		short,
 		off,
 		mk("c02.setdesired", false, false),
 		mk("c02.setdesired.tainted", false, true),
